@@ -1,5 +1,6 @@
 """Check context: obligations, findings, known findings, evidence and exit status."""
 
+import ast
 import json
 import os
 import sys
@@ -70,7 +71,14 @@ class Ctx:
             else:
                 loc = func.loc()
         else:
-            stmt = norm_stmt(node)
+            if isinstance(node, (ast.FunctionDef, ast.AsyncFunctionDef, ast.ClassDef)):
+                stmt = "%s %s" % ("class" if isinstance(node, ast.ClassDef) else "def", node.name)
+            elif isinstance(node, (ast.If, ast.While)):
+                stmt = "%s %s:" % ("if" if isinstance(node, ast.If) else "while", norm_stmt(node.test))
+            elif isinstance(node, (ast.For, ast.AsyncFor)):
+                stmt = "for %s in %s:" % (norm_stmt(node.target), norm_stmt(node.iter))
+            else:
+                stmt = norm_stmt(node)
             if len(stmt) > 300:
                 stmt = stmt[:300] + "..."
             loc = func.loc(node) if not isinstance(func, str) else (
